@@ -109,6 +109,10 @@ fn run(args: &Args, o: &mut Out) {
         "desc" => gdt::run_desc(&mut o, args.seed, args.n),
         "pte" => pte::run_pte(&mut o, args.seed, args.n),
         "regs" => regs::run_regs(&mut o, args.seed, args.n),
+        "ctx" => {
+            cpu::reset_regs();
+            regs::run_ctx(&mut o, &mut gen::Rng::new(args.seed ^ 0xc7c7))
+        }
         "ports" => cpufam::run_ports(&mut o, args.seed, args.n),
         "intr" => cpufam::run_intr(&mut o, args.seed, args.n),
         "flush" => cpufam::run_flush(&mut o, args.seed, args.n),
